@@ -351,7 +351,7 @@ def pinnedStore : List Use := [
   ⟨"storage.State.Get", "0031d02acd5e"⟩,
   ⟨"storage.State.Iterate", "fc4a0187a7f4"⟩,
   ⟨"storage.State.IterateRange", "0662e131e08a"⟩,
-  ⟨"storage.State.Set", "837ebbd620ae"⟩,
+  ⟨"storage.State.Set", "8cf5d915c17d"⟩,
   ⟨"storage.State.Write", "b9b8658c4407"⟩,
   ⟨"storage.State.deleted", "28ea826de789"⟩,
   ⟨"storage.State.rawCache", "0d5f82253f80"⟩,
